@@ -279,7 +279,19 @@ def h_resample(ctx, cfg):
   from audiolazy import resample
   order = cfg["order"]; N = cfg["N"]
   x = ctx.reals("x", N); zero = ctx.real("zero") if cfg.get("symzero") else 0
-  if cfg["step"] == "sym":
+  steps = None
+  if cfg["step"] == "tv":
+    # time-varying step: old (or new) is a Stream, one value per output sample; output m sits at the sum of the first
+    # m steps; steps above 1 shift the window more than once
+    from audiolazy import Stream
+    steps = ctx.reals("s", cfg["M"], lo=Fraction(1, 4), hi=Fraction(5, 2))
+    if cfg.get("via") == "new":
+      for v in steps: ctx.assume(v > 0)
+      old, new = 1, Stream([1 / v for v in steps])
+    else:
+      old, new = Stream(list(steps)), 1
+    step = None
+  elif cfg["step"] == "sym":
     step = ctx.real("step", Fraction(1, 4), 2)
     old, new = step, 1
   else:
@@ -298,6 +310,9 @@ def h_resample(ctx, cfg):
   while alive and m < 40:
     a = consumed - 1 - order                            # absolute index of the window's first sample
     want.append((a, pos))
+    if steps is not None:
+      if m >= len(steps): break                         # the step stream ended: so does the output
+      step = steps[m]
     pos = pos + step
     idx = idx + step
     while bool(idx > thr):
@@ -350,4 +365,6 @@ def tasks(tier, seed):
       for step in ("sym", (1, 1), (1, 2), (3, 2), (2, 1), (1, 3)):
         if step == "sym" and N > 4: continue
         T.append(("h_resample", {"order": order, "N": N, "step": step, "symzero": order == 2}))
+    for N, M in ((2, 2), (3, 3), (4, 3), (5, 4)) if not big else ((2, 2), (3, 3), (4, 3), (5, 4), (6, 4), (4, 6), (7, 5)):
+      T.append(("h_resample", {"order": order, "N": N, "step": "tv", "M": M, "via": "old" if order % 2 == 0 else "new"}))
   return T
